@@ -273,6 +273,12 @@ func c02(tier string) int {
 					ids = append(ids, l.ID())
 				}
 				ids = append(ids, ld.ID(), "0000", "", uni.ID("verif.example/never"))
+				// Spellings NEAR a configured ID are unknown IDs too: other case,
+				// surrounding space, one character less or more, URL-escaped.
+				for _, l := range logs {
+					id := l.ID()
+					ids = append(ids, strings.ToUpper(id), strings.ToUpper(id[:1])+id[1:], id+" ", " "+id, id[:len(id)-1], id+"0", id+"/", "%"+id, id+"\x00")
+				}
 				// Impostors: the origin of a configured log, signed only with a key
 				// that is NOT configured for it (every other configured key, the
 				// second universe key and the same-name key), under that log's ID.
@@ -368,7 +374,7 @@ func c02(tier string) int {
 	}
 	run.Set("evaluations", evals)
 	run.Set("exhaustive", true)
-	run.Set("rule", "for 4 configurations (1 log; 2 logs distinct keys; 3 logs of which two share one key under different origins; 2 logs whose keys have the same name but different key material) x {empty witness, every log holding a checkpoint} x 4 seed checkpoints (plain, extension lines, extra signature by another configured log, already cosigned): the complete byte-level 1-edit neighbourhood (every prefix, every single-bit flip, 8 boundary substitutions and deletion at every byte), 25 line-level / signature-block edits, and every checkpoint of every log (4 sizes x 2 shapes, incl. a log configured only elsewhere) submitted under every other configured ID and under unknown IDs, and every configured origin signed only by each key that is not its own (impostors) under its own ID. Oracle one-directional: accepted or state changed => stored text is in the set of texts the harness signed with the key configured for that ID and starts with that ID's origin; and for inputs the harness decides (crypto/ed25519 directly) carry no valid signature of that key / unsigned text / wrong origin: refused, state unchanged. distinct_nontrivial = distinct (configuration, state, mutated input)")
+	run.Set("rule", "for 4 configurations (1 log; 2 logs distinct keys; 3 logs of which two share one key under different origins; 2 logs whose keys have the same name but different key material) x {empty witness, every log holding a checkpoint} x 4 seed checkpoints (plain, extension lines, extra signature by another configured log, already cosigned): the complete byte-level 1-edit neighbourhood (every prefix, every single-bit flip, 8 boundary substitutions and deletion at every byte), 25 line-level / signature-block edits, and every checkpoint of every log (4 sizes x 2 shapes, incl. a log configured only elsewhere) submitted under every other configured ID and under unknown IDs (incl. spellings near a configured ID: other case, surrounding space, one character less or more), and every configured origin signed only by each key that is not its own (impostors) under its own ID. Oracle one-directional: accepted or state changed => stored text is in the set of texts the harness signed with the key configured for that ID and starts with that ID's origin; and for inputs the harness decides (crypto/ed25519 directly) carry no valid signature of that key / unsigned text / wrong origin: refused, state unchanged. distinct_nontrivial = distinct (configuration, state, mutated input)")
 	run.Assumption("Ed25519 unforgeability: the set of texts the harness signed is the ground truth for authenticity")
 	return run.Finish()
 }
